@@ -73,6 +73,13 @@ type c38Script struct {
 	FinalNotify bool      `json:"final_notify,omitempty"`
 	Reject      string    `json:"reject,omitempty"` // content for which the callback reports a rejection
 	Shape       string    `json:"shape,omitempty"`
+	// DieBefore k>0: before operation k-1 (or before the final settle if there is no
+	// such operation) the fs watcher reports an error and is closed by the loop; from
+	// then on every notification is lost. Reattach n>=0: the loop's next n attempts to
+	// create a new watcher fail, the one after succeeds; n<0: they fail for good
+	// (only the periodic reconciliation is left).
+	DieBefore int `json:"die_before,omitempty"`
+	Reattach  int `json:"reattach,omitempty"`
 }
 
 type c38Case struct {
@@ -151,6 +158,63 @@ type c38Run struct {
 	latencies    []time.Duration
 	inconclusive bool
 	tmpN         int
+
+	// watcher life cycle (guarded by mu)
+	created  int
+	attempts int // newWatcher calls after the first
+	wDead    bool
+	finished bool
+}
+
+func c38NewWatcher() *c38Watcher {
+	return &c38Watcher{events: make(chan fsnotify.Event), errs: make(chan error), closed: make(chan struct{})}
+}
+
+// kill makes the current watcher report an error; the loop closes it.
+func (r *c38Run) kill() bool {
+	r.mu.Lock()
+	w := r.w
+	r.mu.Unlock()
+	t := time.NewTimer(20 * time.Second)
+	defer t.Stop()
+	select {
+	case w.errs <- errors.New("c38: injected watcher failure"):
+	case <-t.C:
+		return false
+	}
+	select {
+	case <-w.closed:
+	case <-t.C:
+		return false
+	}
+	r.mu.Lock()
+	if r.w == w {
+		r.wDead = true
+	}
+	r.mu.Unlock()
+	return true
+}
+
+// alive proves that the loop is running and scheduled: it accepts two marker
+// events, or - without a watcher - it keeps trying to create one on its ticker.
+func (r *c38Run) alive() bool {
+	r.mu.Lock()
+	w, dead, a0 := r.w, r.wDead, r.attempts
+	r.mu.Unlock()
+	if !dead {
+		return w.send(r.marker()) && w.send(r.marker())
+	}
+	deadline := time.Now().Add(20 * time.Second)
+	for time.Now().Before(deadline) {
+		r.mu.Lock()
+		ok := r.attempts >= a0+2 || !r.wDead
+		r.mu.Unlock()
+		if ok {
+			return true
+		}
+		time.Sleep(2 * time.Millisecond)
+	}
+	return false
 }
 
 func (r *c38Run) fail(key, format string, args ...any) {
@@ -214,6 +278,12 @@ func (r *c38Run) readFile() string {
 
 // callback is the reload callback handed to the watch loop.
 func (r *c38Run) callback() error {
+	r.mu.Lock()
+	fin := r.finished
+	r.mu.Unlock()
+	if fin {
+		return nil // the script is over and its directory is being removed
+	}
 	if r.active.Add(1) > 1 {
 		r.mu.Lock()
 		r.fail("callbacks:overlap", "two reload callbacks ran at the same time")
@@ -305,13 +375,17 @@ func (r *c38Run) marker() fsnotify.Event {
 func (r *c38Run) deliver(n int, op fsnotify.Op) bool {
 	r.mu.Lock()
 	seq0 := r.opSeq
+	w, dead := r.w, r.wDead
 	r.mu.Unlock()
+	if dead {
+		return true // nobody is watching: the notification is lost
+	}
 	for i := 0; i < n; i++ {
-		if !r.w.send(fsnotify.Event{Name: r.path, Op: op}) {
+		if !w.send(fsnotify.Event{Name: r.path, Op: op}) {
 			return false
 		}
 	}
-	if !r.w.send(r.marker()) {
+	if !w.send(r.marker()) {
 		return false
 	}
 	r.mu.Lock()
@@ -386,8 +460,8 @@ func (r *c38Run) settle(where string) bool {
 	r.mu.Lock()
 	aba := r.abaPattern()
 	r.mu.Unlock()
-	// prove the loop is alive and scheduled: it must accept two marker events
-	if !r.w.send(r.marker()) || !r.w.send(r.marker()) {
+	// prove the loop is alive and scheduled
+	if !r.alive() {
 		r.mu.Lock()
 		r.inconclusive = true
 		r.mu.Unlock()
@@ -401,7 +475,7 @@ func (r *c38Run) settle(where string) bool {
 		_, bad := ok()
 		return !bad
 	}
-	if !r.w.send(r.marker()) || !r.w.send(r.marker()) {
+	if !r.alive() {
 		r.mu.Lock()
 		r.inconclusive = true
 		r.mu.Unlock()
@@ -447,17 +521,27 @@ func c38RunScript(sc c38Script, interval time.Duration) (res c38Result) {
 	}
 	r.loaded = r.cur
 	r.evalOK, r.evalX = true, r.cur // the watch fingerprints the file synchronously when it starts
-	r.w = &c38Watcher{events: make(chan fsnotify.Event), errs: make(chan error), closed: make(chan struct{})}
+	r.w = c38NewWatcher()
 
 	ctx, cancel := context.WithCancel(context.Background())
-	created := 0
 	err := watchWithOptions(ctx, r.path, r.callback, watchOptions{
 		reconcileInterval: interval,
 		newWatcher: func(string) (eventWatcher, error) {
-			created++
-			if created > 1 {
+			r.mu.Lock()
+			defer r.mu.Unlock()
+			r.created++
+			if r.created == 1 {
+				return r.w, nil
+			}
+			r.attempts++
+			if sc.DieBefore == 0 {
 				return nil, errors.New("c38: watcher is never closed by the harness")
 			}
+			if sc.Reattach < 0 || r.attempts <= sc.Reattach {
+				return nil, errors.New("c38: injected: the directory cannot be watched")
+			}
+			r.w = c38NewWatcher()
+			r.wDead = false
 			return r.w, nil
 		},
 	})
@@ -467,10 +551,16 @@ func c38RunScript(sc c38Script, interval time.Duration) (res c38Result) {
 	}
 	defer func() {
 		cancel()
-		select {
-		case <-r.w.closed: // the loop has returned (deferred closeWatcher)
-		case <-time.After(20 * time.Second):
-			res.inconclusive = true
+		r.mu.Lock()
+		w, dead := r.w, r.wDead
+		r.finished = true
+		r.mu.Unlock()
+		if !dead {
+			select {
+			case <-w.closed: // the loop has returned (deferred closeWatcher)
+			case <-time.After(20 * time.Second):
+				res.inconclusive = true
+			}
 		}
 		// a callback that was already running finishes under r.mu
 		r.mu.Lock()
@@ -505,6 +595,12 @@ func c38RunScript(sc c38Script, interval time.Duration) (res c38Result) {
 	for i, op := range sc.Ops {
 		if op.DelayMs > 0 {
 			time.Sleep(time.Duration(op.DelayMs) * time.Millisecond)
+		}
+		if sc.DieBefore == i+1 && !r.kill() {
+			r.mu.Lock()
+			r.inconclusive = true
+			r.mu.Unlock()
+			return finish()
 		}
 		// delayed notifications that are due now
 		rest := delayed[:0]
@@ -547,6 +643,12 @@ func c38RunScript(sc c38Script, interval time.Duration) (res c38Result) {
 				return finish()
 			}
 		}
+	}
+	if sc.DieBefore > len(sc.Ops) && !r.kill() {
+		r.mu.Lock()
+		r.inconclusive = true
+		r.mu.Unlock()
+		return finish()
 	}
 	if sc.FinalNotify {
 		for _, p := range delayed {
@@ -669,6 +771,18 @@ func c38ScriptLabels(sc c38Script) (labels []string, nt bool) {
 	}
 	if sc.Shape != "" {
 		labels = append(labels, "shape-"+sc.Shape)
+	}
+	if sc.DieBefore > 0 {
+		labels = append(labels, "watcher-dies")
+		if sc.Reattach < 0 {
+			labels = append(labels, "watcher-never-recreated")
+		} else {
+			labels = append(labels, "watcher-recreated-later")
+		}
+		if sc.DieBefore <= len(sc.Ops) {
+			labels = append(labels, "change-after-watcher-death")
+			return labels, true
+		}
 	}
 	return labels, dropped && back
 }
@@ -849,6 +963,10 @@ func c38GenScript(t *rapid.T) c38Script {
 			sc.CbOps = append(sc.CbOps, c38CbOp{K: rapid.IntRange(1, 3).Draw(t, "cbK"), Pos: rapid.SampledFrom([]string{"pre", "post"}).Draw(t, "cbPos"), Op: op})
 		}
 	}
+	if rapid.IntRange(0, 3).Draw(t, "watcherDies") == 0 {
+		sc.DieBefore = rapid.IntRange(1, len(sc.Ops)+1).Draw(t, "dieBefore")
+		sc.Reattach = rapid.SampledFrom([]int{-1, -1, 0, 1, 3}).Draw(t, "reattach")
+	}
 	return sc
 }
 
@@ -866,7 +984,7 @@ func c38GenCase(t *rapid.T) c38Case {
 	return c
 }
 
-const c38Rule = "batches of up to 6 (thorough 8) scripts run in parallel, each against its own real file and watch loop (fake eventWatcher, reconcile interval 5/10/25 ms, production debounce 100 ms): 1..8 operations {write, atomic replace, delete, recreate} over contents {a,b,c,missing} anchored to delays 0..130 ms or to 'inside callback k before/after it reads the file', each notification delivered / dropped / triplicated / delayed by 0..2 steps; shapes: random, X->Y->X inside a debounce window, bursts, settle-per-change phases, change during the callback, ABA around the callback's read. Oracles: eventual delivery after generous wait + liveness proof + re-wait; callback with the file untouched; callback for provably already evaluated content (order-only knowledge from delivered notification + marker event); no overlapping callbacks. Latency is measured, never judged. non-trivial = batch contains a script with >=1 dropped notification and a change back to an earlier content"
+const c38Rule = "batches of up to 6 (thorough 8) scripts run in parallel, each against its own real file and watch loop (fake eventWatcher, reconcile interval 5/10/25 ms, production debounce 100 ms): 1..8 operations {write, atomic replace, delete, recreate} over contents {a,b,c,missing} anchored to delays 0..130 ms or to 'inside callback k before/after it reads the file', each notification delivered / dropped / triplicated / delayed by 0..2 steps; in a quarter of the scripts the fs watcher fails before some operation (all later notifications are lost) and creating a new one fails 0/1/3 times or for good; shapes: random, X->Y->X inside a debounce window, bursts, settle-per-change phases, change during the callback, ABA around the callback's read. Oracles: eventual delivery after generous wait + liveness proof + re-wait; callback with the file untouched; callback for provably already evaluated content (order-only knowledge from delivered notification + marker event); no overlapping callbacks. Latency is measured, never judged. non-trivial = batch contains a script with >=1 dropped notification and a change back to an earlier content"
 
 func TestVerif_C38(t *testing.T) {
 	verifkit.Check(t, "C38", "reload", c38Rule, c38GenCase, c38RunCase)
